@@ -11,6 +11,7 @@ import (
 	"io"
 	"net/http"
 	"net/url"
+	"runtime"
 	"sort"
 	"strings"
 	"time"
@@ -358,6 +359,8 @@ func (w *vRespWriter) WriteHeader(code int) {
 	}
 }
 func (w *vRespWriter) Write(b []byte) (int, error) {
+	// The bytes are copied after the scheduling point: a caller that lets anybody else change b while
+	// this Write is in flight (a slow peer) delivers the changed bytes, as a real connection would.
 	vsched.Visible()
 	if w.status == 0 {
 		w.status = 200
@@ -381,19 +384,31 @@ type vC32Conn struct {
 }
 
 func vC32Open(kind string) *vC32Conn {
-	c := &vC32Conn{kind: kind}
+	n, last := vC32Node()
+	return vC32OpenOn(n, last, kind)
+}
+
+// vC32Node starts a node whose connect handler records the most recent client in *last.
+func vC32Node() (*Node, **Client) {
+	last := new(*Client)
 	n := vNewNode(nil)
-	c.n = n
 	n.OnConnecting(func(ctx context.Context, e ConnectEvent) (ConnectReply, error) {
 		return ConnectReply{Credentials: &Credentials{UserID: "u"}}, nil
 	})
 	n.OnConnect(func(cl *Client) {
-		c.client = cl
+		*last = cl
 		cl.OnSubscribe(func(e SubscribeEvent, cb SubscribeCallback) { cb(SubscribeReply{}, nil) })
 	})
 	if err := n.Run(); err != nil {
 		panic(err)
 	}
+	return n, last
+}
+
+func vC32OpenOn(n *Node, last **Client, kind string) *vC32Conn {
+	c := &vC32Conn{kind: kind}
+	c.n = n
+	*last = nil
 	cmds := []*protocol.Command{
 		{Id: 1, Connect: &protocol.ConnectRequest{}},
 		{Id: 2, Subscribe: &protocol.SubscribeRequest{Channel: "ch"}},
@@ -441,6 +456,7 @@ func vC32Open(kind string) *vC32Conn {
 		close(c.done)
 	}()
 	vsched.WaitIdle()
+	c.client = *last
 	if c.client == nil || !c.client.IsSubscribed("ch") {
 		panic(fmt.Sprintf("verif: %s connection not established (status %d, body %q)", kind, c.w.status, c.w.body.String()))
 	}
@@ -548,6 +564,60 @@ func (c *vC32Conn) finish() (records int) {
 	return n
 }
 
+// ---- two connections writing concurrently ------------------------------------------------------
+
+// vC32Two: two connections of one kind on one node; thread A and thread B each send two messages
+// (distinct payloads, equal and unequal lengths) to their own connection while the scheduler
+// explores every interleaving of the two write paths within the bound, including a preemption
+// inside ResponseWriter.Write (a slow peer). Oracle: the per-connection oracle of finish() on both
+// bodies - each connection receives exactly its own messages, intact and in order. The shared
+// encoder pool of the protocol package is an ordinary sync.Pool; GOMAXPROCS(1) makes its reuse
+// (Put then Get hands back the same encoder) deterministic.
+func vC32Two(kind string) func() {
+	runtime.GOMAXPROCS(1)
+	type pair struct{ a, b [2][]byte }
+	var pairs []pair
+	if kind == "stream-pb" {
+		pairs = []pair{
+			{a: [2][]byte{[]byte("aaa"), []byte("AAAA")}, b: [2][]byte{[]byte("bbb"), []byte("BBBB")}},
+			{a: [2][]byte{[]byte("a"), bytes.Repeat([]byte{0xa1}, 130)}, b: [2][]byte{bytes.Repeat([]byte{0xb2}, 130), []byte("b")}},
+		}
+	} else {
+		pairs = []pair{
+			{a: [2][]byte{[]byte(`{"a":1}`), []byte(`{"a":22}`)}, b: [2][]byte{[]byte(`{"b":1}`), []byte(`{"b":22}`)}},
+			{a: [2][]byte{[]byte(`"a"`), []byte(`["aaaaaaaaaaaaaaaaaaaaaaaaaaaaaaaaaaaaaaaa"]`)}, b: [2][]byte{[]byte(`["bbbbbbbbbbbbbbbbbbbbbbbbbbbbbbbbbbbbbbbb"]`), []byte(`"b"`)}},
+		}
+	}
+	return func() {
+		p := pairs[vsched.ChooseFree(len(pairs))]
+		vsched.Quiet(true)
+		n, last := vC32Node()
+		ca := vC32OpenOn(n, last, kind)
+		cb := vC32OpenOn(n, last, kind)
+		vsched.Quiet(false)
+		send := func(c *vC32Conn, ps [2][]byte) {
+			for _, pl := range ps {
+				if err := c.client.Send(pl); err != nil {
+					panic(fmt.Sprintf("verif: Send: %v", err))
+				}
+			}
+		}
+		vsched.Go(func() { send(ca, p.a) })
+		vsched.Go(func() { send(cb, p.b) })
+		vsched.WaitIdle()
+		vsched.Quiet(true)
+		for _, pl := range p.a {
+			ca.sent = append(ca.sent, vMsg{kind: "message", payload: pl})
+		}
+		for _, pl := range p.b {
+			cb.sent = append(cb.sent, vMsg{kind: "message", payload: pl})
+		}
+		na := ca.finish()
+		nb := cb.finish()
+		vsched.Logf("two/%s: A %d records in %d writes, B %d records in %d writes", kind, na, ca.w.writes, nb, cb.w.writes)
+	}
+}
+
 // ---- harness -----------------------------------------------------------------------------------
 
 func init() {
@@ -557,17 +627,27 @@ func init() {
 		Variants: func(tier string) []vsched.Variant {
 			l := "len4"
 			shards := 4
+			twoBound := 1
 			if tier == "thorough" {
 				l = "len6"
 				shards = 6
+				twoBound = 2
 			}
 			return []vsched.Variant{
 				{Name: "sse-" + l, Bound: 0, Shards: shards, MaxSteps: 1 << 30, BudgetS: 280},
 				{Name: "stream-json-" + l, Bound: 0, Shards: shards, MaxSteps: 1 << 30, BudgetS: 280},
 				{Name: "stream-pb-" + tier, Bound: 0, Shards: 4, MaxSteps: 1 << 30, BudgetS: 280},
+				{Name: "two/sse", Bound: twoBound, Shards: 1, MaxSteps: 1 << 30, BudgetS: 280},
+				{Name: "two/stream-json", Bound: twoBound, Shards: 1, MaxSteps: 1 << 30, BudgetS: 280},
+				// the protobuf path goes through the protocol package's shared encoder pool: bound 2 in
+				// both tiers (a write of A held up inside Write while B's whole write path runs)
+				{Name: "two/stream-pb", Bound: 2, Shards: 1, MaxSteps: 1 << 30, BudgetS: 280},
 			}
 		},
 		Sched: func(v vsched.Variant) func() {
+			if strings.HasPrefix(v.Name, "two/") {
+				return vC32Two(strings.TrimPrefix(v.Name, "two/"))
+			}
 			kind := v.Name[:strings.LastIndexByte(v.Name, '-')]
 			var payloads, reps [][]byte
 			switch {
